@@ -418,3 +418,28 @@ package resolver
 //@   assert at store resolver.delegationInfo.incoherent#1: value && (!lastret("strings.EqualFold") || h.Class != info.nsRecord.Hdr.Class)
 //@   assert at mapupdate#2: lastret("strings.EqualFold") && h.Class == info.nsRecord.Hdr.Class && info.nsRecord != nil
 //@   assert at call strings.EqualFold#1: arg0 == h.Name && arg1 == info.nsRecord.Hdr.Name
+//@
+//@ # ---- C08: the cached-delegation seed. A cached delegation is handed to the resolution together with ITS stored
+//@ # deadline and key (so everything learned below it inherits that bound); it is looked up under the CLIENT's CD bit
+//@ # only; the root fallback is unbounded
+//@ func (*Resolver).searchCache
+//@   abstract
+//@   nosafety all pre
+//@   assert at call middleware/cache.Key#1: len(arg1) == 1 && arg1[0] == cd && arg0.Qtype == dns.TypeNS
+//@   assert at call (*internal/authority.Cache).Get#1: arg1 == lastret("middleware/cache.Key")
+//@   assert at return#2: lastret("(*internal/authority.Cache).Get", 1) == nil && result.deadline == ns.ExpiresAt && result.key == key && result.servers == ns.Servers && result.parentDS == ns.DSSet
+//@   assert at return#3: tzero(result.deadline) && result.servers == r.rootServers
+//@   assert at call (*middleware/resolver.Resolver).searchCache#1: arg2 == cd && arg3 == origin
+//@   assert at call (*middleware/resolver.Resolver).searchCache#2: arg2 == cd && arg3 == origin
+//@
+//@ # resolve() seeds the carried cut from the deepest cached delegation (minimum with whatever was carried) and feeds it
+//@ # to the answer-cache sink; a negative/empty minimised step only advances the minimisation level
+//@ func (*Resolver).resolve
+//@   abstract
+//@   nosafety all pre
+//@   assert at call middleware/resolver.minCut#1: arg0 == rs.cutDeadline && arg1 == rs.cutKey && arg2 == lastret("(*middleware/resolver.Resolver).searchCache").deadline && arg3 == lastret("(*middleware/resolver.Resolver).searchCache").key
+//@   assert at call middleware/resolver.noteCut#1: arg1 == rs.cutDeadline && arg2 == rs.cutKey
+//@   assert at store resolver.resolveState.cutDeadline#1: value == lastret("middleware/resolver.minCut")
+//@   assert at call (*middleware/resolver.Resolver).searchCache#1: arg2 == rs.req.CheckingDisabled
+//@   assert at call (*middleware/resolver.Resolver).answer#1: arg2 == rs.req && arg3 == lastret("(*middleware/resolver.Resolver).setTags") && !lastret("(*middleware/resolver.Resolver).minimize", 1)
+//@   assert at call (*middleware/resolver.Resolver).authority#1: arg2 == rs.req && arg3 == lastret("(*middleware/resolver.Resolver).setTags")
